@@ -807,13 +807,154 @@ def extract_circumradius():
     return {"fallbackCenter": center, "shapeScaleIsMax": True}
 
 
+# --------------------------------------------------------------------------- MeshVolumeRegion.minimumDistanceTo
+def _fcl_geometry_kinds(fn):
+    """names of the fcl.* constructors called inside a function"""
+    return sorted({dotted(n.func) for n in ast.walk(fn) if isinstance(n, ast.Call) and (dotted(n.func) or "").startswith("fcl.")})
+
+
+def extract_voldist():
+    src, tree = load(REGIONS)
+    what = "MeshVolumeRegion.minimumDistanceTo"
+    fn = get_def(tree, what, REGIONS)
+    attrs = {"self._fclDistanceData": opaque("distS"), "other._fclDistanceData": opaque("distO"),
+             "self._fclData": opaque("collS"), "other._fclData": opaque("collO"),
+             "self": opaque("self"), "other": opaque("other")}
+    used = set()
+
+    def calls(interp, node, env):
+        d = dotted(node.func)
+        if d == "fcl.CollisionObject" and len(node.args) == 1 and isinstance(node.args[0], ast.Starred) and not node.keywords:
+            v = interp.ev(node.args[0].value, env)
+            if v.kind == "opaque" and v.tag in ("distS", "distO", "collS", "collO"):
+                return opaque("obj:" + v.tag)
+        if d == "fcl.distance" and len(node.args) == 2 and not node.keywords:
+            a, b = (interp.ev(x, env) for x in node.args)
+            tags = {a.tag, b.tag}
+            if tags in ({"obj:distS", "obj:distO"}, {"obj:collS", "obj:collO"}):
+                used.update(tags)
+                return num("o.fclDist")
+        if d in ("self.intersects", "other.intersects") and len(node.args) == 1 and not node.keywords \
+                and {d.split(".")[0], dotted(node.args[0])} == {"self", "other"}:
+            return atom("volIntersects")
+        return None
+
+    it = Interp(attrs, {}, [calls], what)
+    keep = [s_ for s_ in body_nodoc(fn) if not (isinstance(s_, ast.If) and len(s_.body) == 1 and isinstance(s_.body[0], ast.Raise))]
+    ev = it.walk(keep, {})
+    expect([e[0] for e in ev] == ["exit", "return"], f"{what}: skeleton changed: {[e[0] for e in ev]}")
+    cond, ret = ev[0][1], ev[0][2]
+    expect(cond.data and cond.data[0] == "conn" and len(cond.data[2]) == 2, f"{what}: nested-volume guard is not a binary connective")
+    cmps = [v for v in cond.data[2] if v.data and v.data[0] == "cmp"]
+    ats = [v for v in cond.data[2] if is_atom(v, "volIntersects")]
+    expect(len(cmps) == 1 and len(ats) == 1, f"{what}: nested-volume guard is not `<dist cmp const> <conn> self.intersects(other)`")
+    # python evaluates `a and b` left to right: the comparison must come first (the model fills the unevaluated flag)
+    expect(cond.data[2][0] is cmps[0], f"{what}: the distance comparison is not the first conjunct")
+    _, a, op, b = cmps[0].data
+    expect(a.lean == "o.fclDist" and b.data and b.data[0] == "const", f"{what}: guard does not compare the FCL distance with a literal")
+    expect(ret.kind == "num" and ret.data and ret.data[0] == "const", f"{what}: corrected value is not a literal")
+    expect(ev[1][1].kind == "num" and ev[1][1].lean == "o.fclDist", f"{what}: default value is not the FCL distance")
+    d = {"posCmp": op, "posThr": b.data[1], "conn": cond.data[1], "nestedRet": ret.data[1]}
+    # which geometry the distance query uses
+    if used == {"obj:distS", "obj:distO"}:
+        gfn = get_def(tree, "MeshVolumeRegion._fclDistanceData", REGIONS)
+        kinds = _fcl_geometry_kinds(gfn)
+        expect("fcl.BVHModel" in kinds and set(kinds) <= {"fcl.BVHModel", "fcl.Transform", "fcl.Convex"},
+               f"MeshVolumeRegion._fclDistanceData: unexpected FCL geometry {kinds}")
+        body = body_nodoc(gfn)
+        expect(len(body) >= 2 and isinstance(body[0], ast.If) and dotted(body[0].test) == "self._scaledShape",
+               "MeshVolumeRegion._fclDistanceData: precomputed-shape branch missing")
+        pre = " ".join(ast.unparse(x) for x in body[0].body)
+        expect("self._scaledShape._fclDistanceData[0]" in pre or "self._scaledShape._fclData[0]" in pre,
+               "MeshVolumeRegion._fclDistanceData: precomputed geometry changed")
+        d["bvhOnly"] = "fcl.Convex" not in kinds and "self._scaledShape._fclDistanceData[0]" in pre
+    else:
+        d["bvhOnly"] = False    # the collision geometry: fcl.Convex for convex shapes (GJK distance, inexact)
+    return d
+
+
+# --------------------------------------------------------------------------- MeshVolumeRegion.isConvex
+def extract_isconvex():
+    src, tree = load(REGIONS)
+    what = "MeshVolumeRegion.isConvex"
+    fn = get_def(tree, what, REGIONS)
+    attrs = {"self._isConvex": opaque("override"), "self.mesh": opaque("meshS"), "self": opaque("self")}
+    for base in ("self.mesh", "meshS"):
+        attrs[base + ".is_convex"] = atom("trimeshConvex")
+        attrs[base + ".volume"] = num("o.vol")
+        attrs[base + ".convex_hull.volume"] = num("o.hullVol")
+
+    class I2(Interp):
+        def ev(self, node, env):
+            if isinstance(node, ast.Constant) and node.value is None:
+                return opaque("None")
+            if isinstance(node, ast.Compare) and len(node.ops) == 1 and isinstance(node.ops[0], (ast.IsNot, ast.Is)):
+                v = self.ev(node.left, env)
+                r = node.comparators[0]
+                if isinstance(r, ast.Constant) and r.value is None and v.kind == "opaque":
+                    return Sym("bool", data=("notnone" if isinstance(node.ops[0], ast.IsNot) else "isnone", v))
+            return super().ev(node, env)
+
+    ev = I2(attrs, {}, [], what).walk(body_nodoc(fn), {})
+    kinds = [e[0] for e in ev]
+    expect(kinds in (["exit", "exit", "return"], ["exit", "return"]), f"{what}: skeleton changed: {kinds}")
+    c0, r0 = ev[0][1], ev[0][2]
+    expect(c0.data and c0.data[0] == "notnone" and c0.data[1].tag == "override" and r0.kind == "opaque" and r0.tag == "override",
+           f"{what}: does not start with `if self._isConvex is not None: return self._isConvex`")
+    d = {"overrideFirst": True, "needsTrimesh": False}
+    rest = ev[1:]
+    if len(rest) == 2:
+        expect(is_not_atom(rest[0][1], "trimeshConvex") and const_bool(rest[0][2], what) is False,
+               f"{what}: second test is not `if not mesh.is_convex: return False`")
+        d["needsTrimesh"] = True
+        rest = rest[1:]
+    l, op, r = cmp_parts(rest[0][1], what + " hull-volume guard")
+    d["vol"] = (l, op, r)
+    return d
+
+
+PINNED = {
+    "intersects": {'p1': ('o.centerDist', 'gt', '(o.circS + o.circO)', False), 'p2Guard': 'and',
+                   'p2aIn': ('o.pointDist', 'lt', '(o.inS + o.inO)', True), 'p2aCirc': ('o.pointDist', 'gt', '(o.pcircS + o.pcircO)', False),
+                   'p2bRet': False, 'p3HitRet': True, 'p3Convex': 'and', 'p4Bodies': 1, 'p4Guard': 'and', 'p4Conn': 'or', 'p5Negate': True},
+    "contains": {'p1Ret': False, 'p2Corner': ('gt', Fraction(0), True), 'p2Vert': ('gt', Fraction(0)), 'p3OutRet': False,
+                 'p3': ('(absQ o.sdCand)', 'gt', 'o.objCirc', True), 'p4': ('o.objMaxDist', 'gt', 'o.regCirc', False), 'p5Negate': False},
+    "footprint": {'convexFast': True, 'hullRet': True},
+    "object": {'planar': (True, ('eq', Fraction(0)), ('eq', Fraction(0))),
+               'z': ('(absQ (o.zS - o.zO))', 'gt', '((o.hS + o.hO) / (2 : Rat))', False),
+               'r': ('(absQ (o.zS - o.zO))', 'le', '(o.hS / (2 : Rat))'), 'distCmp': 'eq'},
+    "circumradius": {'fallbackCenter': 'position', 'shapeScaleIsMax': True},
+    "voldist": {'posCmp': 'gt', 'posThr': Fraction(0), 'conn': 'and', 'nestedRet': Fraction(0), 'bvhOnly': True},
+    "isconvex": {'overrideFirst': True, 'needsTrimesh': True,
+                 'vol': ('o.vol', 'ge', '(((1 : Rat) - (1 / 1000000 : Rat)) * o.hullVol)')},
+}
+"""data of the source the model was written against; a section whose template no longer matches falls back to
+this (so that Gen/Solid.lean always builds and the theorems stay about a definite procedure) and the tie of that
+section to the current source then rests on the correspondence run at the escalated budget"""
+
+SECTIONS = [("intersects", None), ("contains", None), ("footprint", None), ("object", None), ("circumradius", None),
+            ("voldist", None), ("isconvex", None)]
+
+
+def extract_tolerant():
+    """-> (data, errors): every section is extracted independently; a mismatching one is replaced by PINNED"""
+    fns = {"intersects": extract_intersects, "contains": extract_contains, "footprint": extract_footprint,
+           "object": extract_object, "circumradius": extract_circumradius, "voldist": extract_voldist,
+           "isconvex": extract_isconvex}
+    d, errors = {}, []
+    for name, _ in SECTIONS:
+        try:
+            d[name] = fns[name]()
+        except TemplateMismatch as e:
+            d[name] = PINNED[name]
+            errors.append(f"{name}: {e}")
+    return d, errors
+
+
 def extract():
-    d = {}
-    d["intersects"] = extract_intersects()
-    d["contains"] = extract_contains()
-    d["footprint"] = extract_footprint()
-    d["object"] = extract_object()
-    d["circumradius"] = extract_circumradius()
+    d, errors = extract_tolerant()
+    if errors:
+        raise TemplateMismatch("; ".join(errors))
     return d
 
 
@@ -823,6 +964,7 @@ def subst_bodies(s):
 
 def to_lean(d):
     i, c, f, ob, cr = d["intersects"], d["contains"], d["footprint"], d["object"], d["circumradius"]
+    vd, cv = d["voldist"], d["isconvex"]
     needs_box, pitch, roll = ob["planar"]
     out = f"""import ScenicModel.Model.Solid
 namespace Scenic.Gen
@@ -893,6 +1035,18 @@ def distCfg : DistCfg := {{ zCmp := .{ob['distCmp']} }}
 
 /-- the point about which the fall-back branch of `MeshVolumeRegion._circumradius` measures the vertices -/
 def fallbackCenter : Center := .{cr['fallbackCenter']}
+
+/-- `MeshVolumeRegion.minimumDistanceTo`: the nested-volume correction and the geometry of `_fclDistanceData` -/
+def volDistCfg : VolDistCfg :=
+  {{ posCmp := .{vd['posCmp']}, posThr := {lean_rat(vd['posThr'])}, conn := .{vd['conn']},
+    nestedRet := {lean_rat(vd['nestedRet'])}, bvhOnly := {lb(vd['bvhOnly'])} }}
+
+/-- `MeshVolumeRegion.isConvex` -/
+def convexCfg : ConvexCfg :=
+  {{ overrideFirst := {lb(cv['overrideFirst'])}, needsTrimesh := {lb(cv['needsTrimesh'])},
+    volLhs := fun o => {cv['vol'][0]},
+    volCmp := .{cv['vol'][1]},
+    volRhs := fun o => {cv['vol'][2]} }}
 
 end Scenic.Gen
 """
